@@ -369,3 +369,80 @@ class SymSet(object):
     def __len__(self): return len(self._d)
     def __iter__(self): return iter(self._d.keys())
     def __bool__(self): return bool(self._d)
+
+
+# ---- sync-point pre-emption ---------------------------------------------------------------------
+class SchedLock(object):
+    """A lock stand-in for single-threaded harnesses: acquiring and releasing it are *sync points* at
+    which the harness may let another (simulated) thread run.  `on_sync(name, phase, function)` is
+    called with phase 'acquire' (before the lock is taken) or 'release' (after it was released) and the
+    name of the driver function that holds the `with` statement.  Works the same with and without
+    instrumentation, so counterexamples replay on the plain driver.  Re-entrant; never blocks."""
+
+    def __init__(self, name, on_sync):
+        self.name = name
+        self.on_sync = on_sync
+        self.depth = 0
+
+    def _caller(self):
+        import sys
+        f = sys._getframe(2)
+        # skip frames of the engine's call hook
+        while f is not None and f.f_code.co_filename.endswith(('sx/hooks.py', 'harness/kit.py')):
+            f = f.f_back
+        return f.f_code.co_name if f is not None else '?'
+
+    def acquire(self, blocking=True, timeout=-1):
+        if self.depth == 0:
+            self.on_sync(self.name, 'acquire', self._caller())
+        self.depth += 1
+        return True
+
+    def release(self):
+        self.depth -= 1
+        if self.depth == 0:
+            self.on_sync(self.name, 'release', self._caller())
+
+    def __enter__(self):
+        if self.depth == 0:
+            self.on_sync(self.name, 'acquire', self._caller())
+        self.depth += 1
+        return self
+
+    def __exit__(self, *a):
+        self.depth -= 1
+        if self.depth == 0:
+            self.on_sync(self.name, 'release', self._caller())
+        return False
+
+    def locked(self):
+        return self.depth > 0
+
+    def _is_owned(self):          # threading.Condition built on this lock
+        return self.depth > 0
+
+
+class Preempter(object):
+    """decides, at the sync points of the listed driver functions, whether the other thread's action runs
+    now: one solver flag per eligible sync point, at most `budget` pre-emptions per path, never nested"""
+
+    def __init__(self, V, functions, action, budget=1, phases=('acquire', 'release')):
+        self.V, self.functions, self.action, self.budget, self.phases = V, set(functions), action, budget, phases
+        self.count = 0
+        self.used = 0
+        self.active = False
+        self.log = []
+
+    def __call__(self, name, phase, function):
+        if self.active or self.used >= self.budget or function not in self.functions or phase not in self.phases:
+            return
+        k = self.count
+        self.count += 1
+        if self.V.flag('preempt_%d_%s_%s_%s' % (k, function, name, phase)):
+            self.used += 1
+            self.active = True
+            self.log.append((function, name, phase))
+            try:
+                self.action(function, name, phase)
+            finally:
+                self.active = False
